@@ -209,6 +209,8 @@ def battery(world, snap, qseed, heavy=True, exporters=True, helpers=True, part=N
     # 2. commonancestors
     if helpers:
         add(("ca", (), outcome(lambda: _idx(world, util.commonancestors()))))
+        for i in range(n):
+            add(("ca", (i,), outcome(lambda: _idx(world, util.commonancestors(nodes[i])))))
         if n <= 16:
             capairs = [(i, j) for i in range(n) for j in range(n)]
         else:
